@@ -52,6 +52,7 @@ def run(ctx, R):
     rtpreserve.rule_rv(ctx, R, 'rv64')
     rtpreserve.rule_const(ctx, R, 'rv64')
     rvdsread.rule_dsread(ctx, R)
+    rvdsread.rule_loopload(ctx, R)
     aeshw.rule_rvv_jit_vlen(ctx, R)
     genreset.rule_ctor_init(ctx, R, 'rv64')
     rtpreserve.rule_store_order(ctx, R, 'rv64')
